@@ -250,9 +250,9 @@ class Interp:
         """The body of a function with filter loops written as the comprehensions they are (see normalize.filter_loops_to_comprehensions)."""
         k = id(fn_node)
         if k not in self._PRENORM:
-            from .normalize import filter_loops_to_comprehensions
+            from .normalize import filter_loops_to_comprehensions, inclusion_exclusion_to_intersection
 
-            self._PRENORM[k] = (fn_node, filter_loops_to_comprehensions(fn_node.body))
+            self._PRENORM[k] = (fn_node, inclusion_exclusion_to_intersection(filter_loops_to_comprehensions(fn_node.body)))
         return self._PRENORM[k][1]
 
     _GEN_CACHE: dict = {}
